@@ -243,11 +243,25 @@ def check_recv(c, st):
                 abandon_after = call[-1].get('abandon')
                 call = call[:-1]
             abandoned = False
+            # the size limit may be left to the socket's own setting (given to the constructor or setmaxsize()), or
+            # switched off with None
+            mskw = {}
+            if call[0] in ('until', 'close'):
+                lim = call[2] if call[0] == 'until' else call[1]
+                if lim == 'default':
+                    lim = bs.maxsize
+                elif lim == 'set':
+                    bs.setmaxsize(c.get('set_maxsize', 7))
+                    lim = c.get('set_maxsize', 7)
+                elif lim == 'none':
+                    mskw, lim = {'maxsize': None}, 2 ** 40
+                else:
+                    mskw = {'maxsize': lim}
+                call = (['until', call[1], lim, call[3]] if call[0] == 'until' else ['close', lim])
             while True:
                 try:
                     if call[0] == 'until':
-                        res = ('ok', bs.recv_until(call[1].encode('latin-1'), maxsize=call[2],
-                                                   with_delimiter=call[3]))
+                        res = ('ok', bs.recv_until(call[1].encode('latin-1'), with_delimiter=call[3], **mskw))
                     elif call[0] == 'size':
                         res = ('ok', bs.recv_size(call[1]))
                     elif call[0] == 'peek':
@@ -255,7 +269,7 @@ def check_recv(c, st):
                     elif call[0] == 'recv':
                         res = ('ok', bs.recv(call[1]))
                     else:
-                        res = ('ok', bs.recv_close(maxsize=call[1]))
+                        res = ('ok', bs.recv_close(**mskw))
                 except su.Timeout:
                     p = conserve('after-timeout:' + call[0])
                     if p:
@@ -514,13 +528,14 @@ def gen_calls(r, stream):
             i = stream.find(d)
             around = (i + len(d)) if i != -1 else len(stream)
             ms = r.choice([around - 1, around, around + 1, 32768, 32768, max(1, around // 2), len(stream) + 1])
-            calls.append(['until', d, max(1, ms), r.random() < 0.4])
+            ms = max(1, ms) if r.random() < 0.8 else r.choice(['default', 'none', 'set'])
+            calls.append(['until', d, ms, r.random() < 0.4])
         elif k in ('size', 'peek'):
             calls.append([k, r.choice([1, 1, 2, 3, 5, 8, 20, max(1, len(stream)), len(stream) + 1])])
         elif k == 'recv':
             calls.append(['recv', r.choice([1, 2, 3, 7, 64, 4096])])
         else:
-            calls.append(['close', r.choice([0, 1, 5, len(stream), 32768, 32768])])
+            calls.append(['close', r.choice([0, 1, 5, len(stream), 32768, 32768, 'default', 'none', 'set'])])
     return calls
 
 
@@ -593,7 +608,8 @@ def gen(r):
             calls = [(cl + [{'abandon': r.choice([1, 1, 2])}]) if (cl[0] != 'recv' and r.random() < 0.35) else cl
                      for cl in calls]
         return {'kind': 'recv', 'stream': stream, 'script': script, 'timeout': timeout,
-                'recvsize': r.choice([1, 2, 3, 4, 8, 64, 4096]), 'calls': calls, 'full_socket': r.random() < 0.3}
+                'recvsize': r.choice([1, 2, 3, 4, 8, 64, 4096]), 'calls': calls, 'full_socket': r.random() < 0.3,
+                'maxsize': r.choice([32768, 32768, 3, 10, 50, len(stream)]), 'set_maxsize': r.choice([1, 7, 40, 32768])}
     if 0.862 < x < 0.87:
         # 64 KB - 5 MB handed to one send/sendall/buffer+flush, accepted in pieces of 50-400 KB, with a fault late in it
         n = r.choice([1500000, 3 * 2 ** 20, 2 ** 20 + 1, 5000000, 65535, 65536, 65537, 70000, 131072, 300000])
